@@ -207,7 +207,7 @@ def run(case, drv):
     fresh = correct_json_route_list(net, requests_from_json({'path-request': [batch_g.req_doc(r) for r in reqs]}, eq))
     keyf = lambda q: batch_g.canon([q.source, q.destination, q.tsp, q.tsp_mode, q.baud_rate, q.nodes_list, q.loose_list,  # noqa: E731
                                     q.spacing, q.power, q.nb_channel, q.f_min, q.f_max, q.format, q.OSNR, q.roll_off,
-                                    q.tx_power])
+                                    q.tx_power, bool(q.bidir)])
     agg_in = [{'id': q.request_id, 'key': keyf(q), 'has_mode': q.tsp_mode is not None, 'bw': f2b(q.path_bandwidth),
                'N': [None if x is None else int(x) for x in q.N], 'M': [None if x is None else int(x) for x in q.M]}
               for q in fresh]
@@ -399,7 +399,7 @@ def _monitor(res, case, ctx, rqs, pp, rpp, impl, rows):
             res.fail(f'response id: {what} stands for request object {rq.request_id}')
         if len(members) > 1:
             def ident(m):
-                d = {k: m[k] for k in ('src', 'dst', 'type', 'mode', 'spacing', 'include', 'strict')}
+                d = {k: m[k] for k in ('src', 'dst', 'type', 'mode', 'spacing', 'include', 'strict', 'bidir')}
                 d['power'] = m['power'] if m['power'] is not None else float(dbm2watt(eq['SI']['default'].power_dbm))
                 return d
             k0 = ident(members[0])
@@ -407,6 +407,10 @@ def _monitor(res, case, ctx, rqs, pp, rpp, impl, rows):
                 if ident(m) != k0 or m['mode'] is None:
                     res.fail(f'aggregation: {what} joins requests that are not identical')
         bw = sum(m['bw'] for m in members)
+        for m in members:
+            if bool(m['bidir']) != bool(rq.bidir):
+                res.fail(f'bidirectional: request {m["id"]} is {"bi" if m["bidir"] else "uni"}directional but is answered by {what}, '
+                         f'which is {"bi" if rq.bidir else "uni"}directional: it would {"lose" if m["bidir"] else "gain"} its z-a direction')
         reason = getattr(rq, 'blocking_reason', None)
         if row['response-id'] != rid:
             res.fail(f'csv: row of {what} carries id {row["response-id"]}')
